@@ -195,6 +195,8 @@ def gen_plan(r):
         "on_server_data": r.choice([["none"], ["close"], ["none", "close", "half", "reply"]]),
         "on_server_close": r.choice([["close"], ["close", "none"]]),
         "tcp_timeout": r.choice([600, 600, 5]),
+        # backpressure: the client stops reading, so drain() on the client writer blocks once something was written to it
+        "client_drain_block": r.choice([0, 0, 0, 40]),
     }
 
 
@@ -254,6 +256,8 @@ def run_case(ctx, r, plan=None, layer_factory=None):
         opts.add_option("tcp_timeout", int, plan["tcp_timeout"], "")
         creader = vloop.FakeReader()
         cwriter = vloop.FakeWriter(world, "client", None, peername=("192.0.2.10", 50123), sockname=("192.0.2.1", 8080))
+        if plan.get("client_drain_block"):
+            cwriter.drain_plan = lambda: (plan["client_drain_block"] if cwriter.buf else None)
 
         async def main():
             h = Handler(FakeMaster(FakeAddons(plan, rec, loop, None)), creader, cwriter, opts, mode_specs.ProxyMode.parse("regular"))
